@@ -61,6 +61,17 @@ CORPUS = [
       C("SIf", [(C("ECmp", C("CEq"), V("a"), I(1)), [C("SLet", "tmp", I(9)), C("SEcho", [C("ELit", [C("PText", "in "), C("PVar", "tmp"), C("PText", " "), C("PVar", "a")])])])], None),
       C("SEcho", [C("ELit", [C("PText", "out "), C("PVar", "tmp"), C("PText", " a="), C("PVar", "a"), C("PText", " b="), C("PVar", "b")])]),
       C("SLet", "s", C("ELit", [C("PText", "x"), C("PVar", "tmp"), C("PText", "y"), C("PVar", "b"), C("PText", "z")])), C("SEcho", [V("s")])]),
+    # pop as an expression inside blocks: the value goes into a variable of the block, the stack - declared outside - shrinks
+    ("let stack = [1, 2, 3]\nif 1 == 1 {\n  let top = pop $stack\n  echo $top\n  if $top == 3 {\n    let nxt = pop $stack\n    echo $nxt\n  }\n}\necho $stack\nlet last = pop $stack\necho $last $stack\n",
+     [C("SLet", "stack", C("EArr", [I(1), I(2), I(3)])),
+      C("SIf", [(C("ECmp", C("CEq"), I(1), I(1)), [C("SLet", "top", C("EIdx", "stack", I(2))), C("SPop", "stack"), C("SEcho", [V("top")]),
+                                                    C("SIf", [(C("ECmp", C("CEq"), V("top"), I(3)), [C("SLet", "nxt", C("EIdx", "stack", I(1))), C("SPop", "stack"), C("SEcho", [V("nxt")])])], None)])], None),
+      C("SEcho", [V("stack")]), C("SLet", "last", C("EIdx", "stack", I(0))), C("SPop", "stack"), C("SEcho", [V("last"), V("stack")])]),
+    # a number on its own as a condition: everything but 0 is true
+    ("let x = 0 - 2\nwhile $x {\n  echo $x\n  x += 1\n}\nlet d = 3 - 5\nif $d {\n  echo \"differ\"\n} else {\n  echo \"same\"\n}\nif !$d {\n  echo \"zero\"\n}\n",
+     [C("SLet", "x", C("EBin", C("OSub"), I(0), I(2))), C("SLoop", False, V("x"), [C("SEcho", [V("x")]), C("SSet", "x", C("Some", C("OAdd")), I(1))]),
+      C("SLet", "d", C("EBin", C("OSub"), I(3), I(5))), C("SIf", [(V("d"), [C("SEcho", [L("differ")])])], C("Some", [C("SEcho", [L("same")])])),
+      C("SIf", [(C("ENot", V("d")), [C("SEcho", [L("zero")])])], None)]),
 ]
 
 
